@@ -38,3 +38,12 @@ Print Assumptions C04_dump_total.
 Theorem C04_panic_sites_covered : forallb (fun s => existsb (site_eqb s) covered_sites) panic_sites = true.
 Proof. exact panic_sites_covered. Qed.
 Print Assumptions C04_panic_sites_covered.
+
+(* generated-data obligation: the library keeps no package-level variable that is written after initialisation (an
+   unsynchronised write to a package-level map from two goroutines is a fatal error of the Go runtime that no caller can
+   recover from), re-checked against the source on every run *)
+From Coq Require Import String.
+From UV Require Import Gen.SharedState Model.Sync Proofs.SyncProofs.
+Theorem C04_no_written_shared_state : shared_ok shared_state = true.
+Proof. exact shared_state_benign. Qed.
+Print Assumptions C04_no_written_shared_state.
